@@ -355,7 +355,17 @@ class _Results:
         return dict(self._values)
 
 
-def build_model(cfg, lab, defaults):
+# bounds of the unknown parameters when the model is going to be estimated (part e): they contain every value of the
+# parameter sets D, A, B of all value alphabets and keep the estimates inside the domain of the utility functions
+# (gamma > 0, 0 < alpha < 1, prices > 0, scale > 0) and well conditioned
+E_BOUNDS = {'g': (0.25, 8.0), 'al': (0.125, 0.875), 'p': (0.25, 4.0), 'scale': (0.25, 4.0), 'b': (-4.0, 4.0), 'm': (-2.0, 2.0)}
+
+
+def beta_bounds(name):
+    return E_BOUNDS[name.split('_')[0]]
+
+
+def build_model(cfg, lab, defaults, bounded=False, weights=False):
     from biogeme.expressions import Beta, Variable
     from biogeme.mdcev import GammaProfile, Translated, Generalized, NonMonotonic
 
@@ -363,7 +373,8 @@ def build_model(cfg, lab, defaults):
 
     def beta(name):
         if name not in betas:
-            betas[name] = Beta(name, defaults[name], None, None, 0)
+            lb, ub = beta_bounds(name) if bounded else (None, None)
+            betas[name] = Beta(name, defaults[name], lb, ub, 0)
         return betas[name]
 
     def lin(spec):
@@ -387,6 +398,8 @@ def build_model(cfg, lab, defaults):
         kw['prices'] = {labels[k]: beta('p_' + GOODS[k].lower()) for k in dict_order(order, 'prices')}
     if cfg['variant'] == 'nonmono':
         kw['mu_utilities'] = {labels[k]: lin(MU_SPEC[GOODS[k]]) for k in dict_order(order, 'mu')}
+    if weights:
+        kw['weights'] = Variable('w')
     cls = dict(gamma=GammaProfile, translated=Translated, generalized=Generalized, nonmono=NonMonotonic)[cfg['variant']]
     return cls(**kw)
 
@@ -1744,6 +1757,252 @@ def _part_h(task, rec):
                         break
             rec.violation(key, what, dict(part='h', cfg=cfg, lab=lab, history=[list(o) for o in h], seed=_SEED),
                           expected=bad[3], observed=bad[4])
+
+
+# --------------------------------------------------------------------------- part e: parameters obtained by an estimation
+# 'Any parameter values' includes the values a model holds after its own public entry point ``estimate_parameters`` has
+# run (a real estimation, on a data set written out by the reference solver: estimation rows x all 27 draws, no sampling),
+# and the values given through the estimation_results setter before or after such an estimation.  Histories over
+#   E<T>  estimate_parameters on the data set generated with parameter set T
+#   S<T>  estimation_results setter with parameter set T
+#   O     observe: pieces of row 0 (numeric = symbolic (engine) = closed form, derivative, optimal consumption), forecast of
+#         row 0, validation of row 0, forecast of row 1
+# with at least one E, every O compared with the reference holding the *current* values: the starting values overwritten by
+# what the returned results report (``get_beta_values()``).
+E_BUDGET = 10.0
+E_MAX_ITER = 30
+
+
+def est_rows(alph):
+    r0, r1 = alph['rows']
+    return [dict(x=x, z=z, unused=1.0) for x in (0.0, r0['x'], r1['x']) for z in (r1['z'], r0['z'])]
+
+
+def est_dataset(cfg, alph, which):
+    """The estimation data: for every estimation row and every draw in {-1,0,1}^3 the optimal consumption (reference
+    solver) of a consumer with parameter set ``which``; quantities = expenditure / price; weights 1, 2 alternating."""
+    import pandas as pd
+
+    recs = []
+    for row in est_rows(alph):
+        ref = Ref(cfg, alph['psets'][which], row)
+        for eps in ALL_DRAWS:
+            try:
+                xs, _ = ref.solve(E_BUDGET, eps)
+            except (ArithmeticError, ValueError, ZeroDivisionError):
+                continue
+            r = dict(row)
+            for k in range(3):
+                r[f'q{k}'] = xs[k] / ref.price[k]
+            r['nch'] = float(sum(1 for v in xs if v > 0))
+            r['w'] = 1.0 + (len(recs) % 2)
+            recs.append(r)
+    return pd.DataFrame(recs, columns=['unused', 'z', 'x', 'q0', 'q1', 'q2', 'nch', 'w'])
+
+
+def in_domain(cfg, values):
+    for g in ('a', 'b', 'c'):
+        if not values['g_' + g] > 0 or not values['p_' + g] > 0 or not 0 < values['al_' + g] < 1:
+            return False
+    return values['scale'] > 0 and all(math.isfinite(v) for v in values.values())
+
+
+def observe_battery(model, cfg, lab, one, values, alph):
+    """-> (bad | None, observation).  bad = (clause, detail, expected, observed) of the first failing comparison."""
+    labels = lab['labels']
+    obs = []
+    ref = Ref(cfg, values, alph['rows'][0])
+    # pieces of row 0
+    for k in range(3):
+        x, e = 1.0 + k, H_EPS[k]
+        lam = 8.0
+        try:
+            u = float(model.utility_one_alternative(the_id=labels[k], the_consumption=x, epsilon=e, one_observation=one[0]))
+            d = float(model.derivative_utility_one_alternative(the_id=labels[k], the_consumption=x, epsilon=e, one_observation=one[0]))
+            us, ds = engine_value_and_derivative(model, labels[k], x, e, one[0])
+            oc = None
+            if lam > ref.dual_floor(k, e) + 1e-9:
+                oc = float(model.optimal_consumption_one_alternative(the_id=labels[k], dual_variable=lam, epsilon=e, one_observation=one[0]))
+        except Exception as ex:  # noqa: BLE001
+            return ('piece-raises:' + type(ex).__name__, str(ex)[:200], None, repr(ex)[:200]), obs + ['raised', type(ex).__name__]
+        obs.append((u, d, oc))
+        ur, dr = ref.U(k, x, e), ref.MU(k, x, e)
+        if not close(u, us, PIECE_REL, PIECE_ABS):
+            return ('numeric-utility!=symbolic-utility', f'row 0 good {GOODS[k]} x={x} eps={e}: utility_one_alternative {u!r} vs engine value '
+                    f'of utility_expression_one_alternative {us!r}', us, u), obs
+        if not close(d, ds, PIECE_REL, PIECE_ABS):
+            return ('derivative!=gradient-of-symbolic-utility', f'row 0 good {GOODS[k]} x={x} eps={e}: derivative_utility_one_alternative {d!r} vs '
+                    f'engine gradient {ds!r}', ds, d), obs
+        if not (close(u, ur, PIECE_REL, PIECE_ABS) and close(d, dr, PIECE_REL, PIECE_ABS)):
+            return ('piece-values-not-those-of-current-parameters', f'row 0 good {GOODS[k]} x={x} eps={e}: utility {u!r} derivative {d!r}',
+                    dict(utility=ur, derivative=dr), dict(utility=u, derivative=d)), obs
+        if oc is not None:
+            xr = ref.inv(k, lam, e)
+            if math.isfinite(xr) and abs(xr) <= 1e8 and not close(oc, xr, PIECE_REL, PIECE_ABS):
+                return ('piece-values-not-those-of-current-parameters', f'row 0 good {GOODS[k]} dual={lam} eps={e}: optimal consumption {oc!r}', xr, oc), obs
+    # forecast row 0, validation row 0, forecast row 1
+    for step in ('F0', 'V0', 'F1'):
+        ri = int(step[1])
+        ref = Ref(cfg, values, alph['rows'][ri])
+        if step[0] == 'F':
+            try:
+                xref, lamref = ref.solve(H_BUDGET, H_EPS)
+            except (ArithmeticError, ValueError, ZeroDivisionError):
+                obs.append('no-reference-solution')
+                continue
+            out = run_one_forecast(model, cfg, lab, one[ri], H_BUDGET, H_EPS)
+            obs.append(out)
+            if isinstance(out, tuple):
+                return ('forecast-raises:' + out[1], f'row {ri}: {out[2]}', xref, f'{out[1]}: {out[2]}'), obs
+            pb = check_forecast(ref, H_BUDGET, H_EPS, out, xref, lamref)
+            if pb:
+                return (pb[-1][0], f'row {ri} budget {H_BUDGET} eps {list(H_EPS)}: {pb[-1][1]}', xref, out), obs
+        else:
+            if max(ref.dual_floor(k, 0.01) for k in range(3)) >= 10 - 1e-9:
+                obs.append('validation-skipped')
+                continue
+            try:
+                msgs = model.validation(one_row=one[ri])
+            except Exception as ex:  # noqa: BLE001
+                msgs = [f'raised {type(ex).__name__}: {str(ex)[:200]}']
+            obs.append(len(msgs))
+            if msgs:
+                return ('validation-reports-inconsistent-pieces', f'row {ri}: {msgs[:2]}', [], msgs[:4]), obs
+    return None, obs
+
+
+def h_text(hist):
+    return ' '.join(o[0] + (str(o[1]) if len(o) > 1 and not isinstance(o[1], dict) else '') for o in hist)
+
+
+def run_est_history(cfg, lab, hist, alph, weights, rec=None, one=None, name=None, data=None):
+    """Replays ``hist`` (ops ['E', T] / ['S', T] / ['P', values] / ['O']) on a fresh model.  -> dict(status=...):
+    'ok'; 'bad' (+ i, clause, detail, expected, observed, values, source); 'estimation-raised' / 'out-of-domain' (+ i)."""
+    import biogeme.parameters
+    from biogeme.database import Database
+    from biogeme.expressions import Variable
+
+    if one is None:
+        _, one = make_rows(alph['rows'])
+    if data is None:
+        data = {}
+    labels = lab['labels']
+    model = build_model(cfg, lab, alph['psets']['D'], bounded=True, weights=weights)
+    values = dict(alph['psets']['D'])
+    source = 'initial-values'
+    info = dict(estimations=0, moved=0)
+    for i, op in enumerate(hist):
+        kind = op[0]
+        h = tuple((o[0],) + tuple(o[1:]) if not (len(o) > 1 and isinstance(o[1], dict)) else ('P',) for o in hist[:i + 1])
+        if kind == 'S' or kind == 'P':
+            new = dict(alph['psets'][op[1]]) if kind == 'S' else dict(op[1])
+            model.estimation_results = _Results(new)
+            values.update(new)
+            source = 'setter' if source == 'initial-values' or kind == 'P' else 'setter-after-estimate_parameters'
+            if rec is not None:
+                rec.transition()
+            continue
+        if kind == 'E':
+            which = op[1]
+            if which not in data:
+                data[which] = est_dataset(cfg, alph, which)
+            try:
+                res = model.estimate_parameters(
+                    database=Database('e18', data[which].copy()), number_of_chosen_alternatives=Variable('nch'),
+                    consumed_quantities={labels[k]: Variable(f'q{k}') for k in range(3)},
+                    parameters=biogeme.parameters.Parameters(), generate_html=False, generate_pickle=False,
+                    save_iterations=False, number_of_threads=1, max_iterations=E_MAX_ITER)
+                est = {n: float(v) for n, v in res.get_beta_values().items()}
+            except Exception as ex:  # noqa: BLE001 - whether an estimation succeeds is not part of the statement
+                if rec is not None:
+                    rec.count('estimation_raised:' + type(ex).__name__)
+                    rec.case(None, (h, 'raised', type(ex).__name__), outcome=f"{cfg['variant']}|e|estimation-raised")
+                    if isinstance(ex, RuntimeError):
+                        rec.retire = True
+                return dict(status='estimation-raised', i=i, error=f'{type(ex).__name__}: {str(ex)[:200]}', **info)
+            moved = max([abs(est[n] - values[n]) for n in est if n in values] + [0.0]) > 1e-3
+            info['estimations'] += 1
+            info['moved'] += 1 if moved else 0
+            values.update({n: v for n, v in est.items() if n in values})
+            source = 'estimate_parameters'
+            if rec is not None:
+                rec.transition()
+                rec.count('estimations')
+                rec.count('estimations_that_moved_the_parameters' if moved else 'estimations_that_left_the_starting_values')
+            if not in_domain(cfg, values):
+                if rec is not None:
+                    rec.count('skipped_out_of_domain:estimates-outside-the-domain-of-the-utility')
+                return dict(status='out-of-domain', i=i, **info)
+            continue
+        # 'O'
+        bad, obs = observe_battery(model, cfg, lab, one, values, alph)
+        if rec is not None:
+            rec.case(('e', name, tuple(labels), lab['order'], weights, h), (h, _round(obs)),
+                     outcome=f"{cfg['variant']}|e|values-from:{source}|{'bad' if bad else 'ok'}")
+            rec.state((name, 'e', weights, h_text(hist[:i + 1])))
+        if bad:
+            return dict(status='bad', i=i, clause=bad[0], detail=bad[1], expected=bad[2], observed=bad[3], values=dict(values),
+                        source=source, **info)
+    return dict(status='ok', **info)
+
+
+def est_violation(cfg, lab, hist, out, alph, weights):
+    """Key and text of a failing observation.  It is repeated on a fresh model that is only given the same values through
+    the estimation_results setter: passing there, the failure is about how the values got into the model."""
+    h = [list(o) for o in hist[:out['i'] + 1]]
+    again = run_est_history(cfg, lab, [['P', out['values']], ['O']], alph, weights)
+    base = vkey(out['clause'], cfg) + f"|values-from:{out['source']}"
+    if again['status'] == 'ok':
+        key = base + '|a-fresh-model-given-the-same-values-passes'
+        tail = 'a fresh model given the same values through the estimation_results setter passes'
+    else:
+        key = base + '|also-on-a-fresh-model'
+        tail = 'a fresh model given the same values fails too'
+    what = (f'{cfg_name(cfg)} labels {lab["labels"]}{" weights" if weights else ""}: after the history [{h_text(h)}] the model holds the values '
+            f'{ {k: round(v, 6) for k, v in sorted(out["values"].items())} } and the observation gives {out["clause"]}: {out["detail"]}; {tail}')
+    return key, what
+
+
+E_OPS_QUICK = (['E', 'A'], ['S', 'B'], ['O'])
+E_OPS_THOROUGH = (['E', 'A'], ['E', 'B'], ['S', 'A'], ['S', 'B'], ['O'])
+
+
+def est_histories(ops, depth, first=None):
+    """Every history of length 2..depth over ``ops`` that ends in an observation and holds an estimation; shortest first."""
+    out = []
+    for n in range(2, depth + 1):
+        for body in itertools.product(ops, repeat=n - 1):
+            if not any(o[0] == 'E' for o in body):
+                continue
+            if any(body[j][0] == 'O' and body[j + 1][0] == 'O' for j in range(len(body) - 1)) or body[-1][0] == 'O':
+                continue     # observing twice in a row adds nothing
+            if first is not None and list(body[0]) != list(first):
+                continue
+            out.append([list(o) for o in body] + [['O']])
+    return out
+
+
+def _part_e(task, rec):
+    alph = alphabet(task.get('seed', _SEED))
+    cfg, lab, weights = task['cfg'], task['lab'], task['weights']
+    _, one = make_rows(alph['rows'])
+    name = cfg_name(cfg)
+    data, seen = {}, set()
+    for hist in task['histories']:
+        out = run_est_history(cfg, lab, hist, alph, weights, rec, one, name, data)
+        rec.count('estimation_histories')
+        rec.count('estimation_histories:' + out['status'])
+        if task.get('sample') and hist is task['histories'][0]:
+            rec.sample(dict(part='e', cfg=cfg, history=hist, result={k: v for k, v in out.items() if k != 'values'}))
+        if out['status'] != 'bad':
+            continue
+        key, what = est_violation(cfg, lab, hist, out, alph, weights)
+        if key in seen:
+            rec.count('further_witnesses_of_a_reported_key')
+            continue
+        seen.add(key)
+        rec.violation(key, what, dict(part='e', cfg=cfg, lab=lab, weights=weights, history=hist[:out['i'] + 1], seed=_SEED),
+                      expected=out['expected'], observed=out['observed'])
 
 
 # --------------------------------------------------------------------------- tasks
